@@ -16,7 +16,7 @@
 From Coq Require Import List Arith Bool String ZArith Lia.
 From PV Require Import Base.Exn Base.Values Base.Ann Base.PyCall Model.CheckerCfg Model.Checker Model.PedanticCfg
   Model.Pedantic Model.PedanticEval Spec.Conforms Spec.PedanticSpec
-  Proofs.PedanticBase Proofs.PyCallFacts Proofs.PedanticC03 Proofs.PedanticC04 Proofs.PedanticWitness Gen.Pedantic Gen.CheckerTables.
+  Proofs.PedanticBase Proofs.PyCallFacts Proofs.PedanticC03 Proofs.PedanticC04 Proofs.PedanticChecker Proofs.PedanticWitness Gen.Pedantic Gen.CheckerTables.
 Import ListNotations.
 Close Scope Z_scope.
 Open Scope list_scope.
@@ -24,10 +24,6 @@ Open Scope list_scope.
 Theorem C04_cfg_good : pc_good Gen.Pedantic.pedantic_cfg = true.
 Proof. vm_compute. reflexivity. Qed.
 Print Assumptions C04_cfg_good.
-
-Theorem C04_model_locks : Gen.Pedantic.locks = PedanticBase.model_locks.
-Proof. vm_compute. reflexivity. Qed.
-Print Assumptions C04_model_locks.
 
 (* ---------------- relative to any checker ---------------- *)
 Theorem C04_transparent_relative : forall pc check consumes f c bd b r,
@@ -75,12 +71,12 @@ Section Relative.
     run pc check consumes f c bd = twin f c bd.
   Proof.
     intros pc f c bd G g H Hres. unfold c04_call_ok in H.
-    repeat (apply andb_true_iff in H; destruct H as [H ?]).
     destruct (twin_binding f c) as [b|] eqn:Eb; [|discriminate].
+    apply andb_true_iff in H as [H Hret]. apply andb_true_iff in H as [H Hann]. apply andb_true_iff in H as [_ Hgood].
     destruct (f_ret f) as [r|] eqn:Er; [|discriminate].
     eapply transparent; try eassumption.
     - apply consumes_model_iter.
-    - intros oa v Hin. apply good_accepts. rewrite forallb_forall in H2. exact (H2 (oa, v) Hin).
+    - intros oa v Hin. apply good_accepts. rewrite forallb_forall in Hgood. exact (Hgood (oa, v) Hin).
     - intros b' cons v Ev. specialize (Hres b' cons). rewrite Ev in Hres. unfold c04_result_ok in Hres. rewrite Er in Hres.
       destruct (good_accepts _ _ Hres) as [a [E Ha]]. now inversion E; subst.
   Qed.
@@ -123,6 +119,19 @@ Print Assumptions C04_transparent_partial.
 Print Assumptions C04_body_once_partial.
 Print Assumptions C04_outcome_passthrough_partial.
 Print Assumptions C04_text_independent_partial.
+
+(* ---------------- closed: the model of the whole library ---------------- *)
+(* hypothesis discharged by the C02 completeness theorem (Proofs/CheckerTop.v via Proofs/PedanticChecker.v) *)
+Theorem C04_transparent_closed_partial : forall ctx f c bd,
+  kw_guards Gen.Pedantic.pedantic_cfg f c ->
+  c04_call_ok ctx f c = true ->
+  (forall b cons, c04_result_ok ctx f (bd b cons) = true) ->
+  run1 ctx f c bd = twin f c bd.
+Proof.
+  intros ctx f c bd g H Hres. unfold run1.
+  exact (C04_transparent_partial gcfg ctx (checker1_accepts ctx) _ f c bd C04_cfg_good g H Hres).
+Qed.
+Print Assumptions C04_transparent_closed_partial.
 
 (* ---------------- refutations of the full statement (known findings) ---------------- *)
 Definition differs (f : fn) (c : call) (bd : body) : Prop := run1 ctx0 f c bd <> twin f c bd.
@@ -205,6 +214,22 @@ Proof.
   repeat split; reflexivity.
 Qed.
 Print Assumptions C04_pedantic_text_refuted.
+
+(* observation outside the domain of C04 (the call passes a declared parameter positionally, which functions with
+   *args allow): def f(a: int, *args: str); f(1, 'x') raises PedanticTypeCheckException, because _check_types_args
+   checks every element of self.args - the leading 1 included - against the annotation of *args *)
+Example C04_observation_leading_positional_checked_as_star :
+  let f := func "f" [par a_ PosOrKw AInt None; par args_ VarPos AStrC None] (tflags true false false true 1) in
+  let c := poscall [] [one; vx] [] in
+  c04_call_ok ctx0 f c = false /\ run1 ctx0 f c (returns one) = (Raise PTypeCheckC, []) /\ fst (twin f c (returns one)) = Ok one.
+Proof. repeat split; reflexivity. Qed.
+
+(* ... while positional values that all land in *args are in the domain and pass *)
+Example C04_star_elements_transparent :
+  let f := func "f" [par args_ VarPos AStrC None; par 11 KwOnly AInt None] (tflags true false false true 1) in
+  let c := poscall [] [vx; vx] [(11, one)] in
+  c04_call_ok ctx0 f c = true /\ run1 ctx0 f c (returns one) = twin f c (returns one).
+Proof. split; reflexivity. Qed.
 
 (* ---------------- the guards are satisfiable ---------------- *)
 Ltac guards :=
